@@ -32,6 +32,7 @@ func runC19(seed uint64, n int, tier string, outDir string) []*Stats {
 
 	corpusKnown(st)
 	corpusInject(st)
+	targetedMetafile(st)
 	metaCases(r, n/2, cf, st)
 	outsCases(r, n/2, cf, st)
 	glueMetafile(r, n, st)
@@ -112,7 +113,13 @@ func metaCases(r *Rng, n int, cf *CoqFile, st *Stats) {
 			if _, ok := counts[s.owner]; !ok {
 				order = append(order, s.owner)
 			}
-			counts[s.owner] += v.AccurateFinalByteCount(true, piecesOf(v, s.data), nil, dir)
+			sp := piecesOf(v, s.data)
+			cnt := v.AccurateFinalByteCount(true, sp, nil, dir)
+			counts[s.owner] += cnt
+			// the property's predicate on one slice: the count is the length of what substitution produces
+			if sub, _ := v.SubstituteFinalPaths(true, sp, nil, dir); cnt != len(sub) {
+				st.Fail("byte-count-differs-from-substituted-length", map[string]interface{}{"scenario": "accurateFinalByteCount-slice", "slice": string(s.data), "dir": dir, "publicPath": public, "assets": fmt.Sprint(files), "chunks": fmt.Sprint(chunks)}, cnt, len(sub))
+			}
 		}
 		has, ps := v.BreakJoinerIntoPieces(whole)
 		final, _ := v.SubstituteFinalPaths(has, ps, whole, dir)
